@@ -535,6 +535,8 @@ def _const_repr(o):
     if "fn" in o:
         return "fn:%s" % o["fn"]
     if "def" in o:
+        if "promoted" in o:
+            return "def:%s::{promoted#%d}" % (o["def"].split("::{promoted#")[0], o["promoted"])
         return "def:%s" % o["def"]
     return "ty:%s" % o.get("ty")
 
